@@ -62,6 +62,20 @@ CLAIMED = {
         note='Trusted: Coq kernel + vm_compute sweeps, CPython str/int/strptime semantics as modelled (sampled), ASCII field names, harness. No axioms.',
         technique='Coq proof (scanner lemmas over list append, finite sweeps for number/date fields); differential correspondence',
         design='6 (C20)'),
+    'C08': dict(
+        text='Coq theorems (Props/C08.v) over executable models of split_sms / split_sms_udh (the while loops on encoded septets / UTF-16BE '
+             'octets with the escape and high-surrogate guards), the UCS2 codec and the segmentation block of ESME._dequeue_messages: for EVERY text '
+             '(any length, any mix of GSM basic/extension, BMP and astral characters), both methods and every reference 0..255, whatever the '
+             'sender emits is accepted by an independent receiver (Spec/Receiver.v: SAR TLVs / 3GPP 23.040 concatenation IEs) that checks the '
+             'single-PDU limits (254 octets; UDH: 140 octets or 160 septets incl. header), one reference, total n<=255, sequence 1..n, equal '
+             'esm_class/data_coding, and that each segment decodes on its own in strict mode (no split escape or surrogate pair), and it returns '
+             'exactly the text; 16-bit references for split_sms_udh; generic loop lemmas (lossless, sized) for any limit. Tied to the code by '
+             'differential runs of the split functions and by running the real ESME sender (fake transport) and parsing the written PDUs with an '
+             'independent SMPP reference parser.',
+        note='Trusted: Coq kernel, translator (tables, size constants), harness + smppref.py. Domain: default alphabet gsm0338, automatic encoding, '
+             'strict error handling. Proved for the code after fix 7e848a9 (the pinned code cut GSM texts on characters). No axioms.',
+        technique='Coq proof: generic chunking invariants by induction on fuel, byte/unit commutation for UTF-16, decoder-state lemmas; differential + wire-level correspondence',
+        design='6 (C08)'),
 }
 
 PENDING_REASON = 'check not built yet in this round (planned, see DESIGN.md section 6); not claimed until its proof and correspondence run exist'
